@@ -50,4 +50,36 @@ def dampVm (vmOld vol nTot : α) : α :=
   else if v < lit (7 / 100) then (lit 2 * vmOld + v) / lit 3
   else (lit 1 * vmOld + v) / lit 2
 
+/-- the weight `w` of the old molar volume in `dampVm` (`(w * vmOld + v) / (w + 1)`) -/
+def dampWeight (v : α) : α :=
+  if v < lit (2 / 100) then lit 8 else if v < lit (3 / 100) then lit 6 else if v < lit (5 / 100) then lit 4
+  else if v < lit (7 / 100) then lit 2 else lit 1
+
+/-! ### the gas rows of `residuals` / `check_residuals` -/
+
+/-- `residuals`, `GAS_MOLES` row: numerical fixed-volume variant `moles - moles_x`, otherwise `total_p - f` -/
+def gasResidual (numericalFixedV : Bool) (moles molesX totalP f : α) : α :=
+  if numericalFixedV then moles - molesX else totalP - f
+
+/-- `residuals`: the fixed-volume pressure test — convergence is refused while
+`fabs(last_patm_x - patm_x) > 0.001 || fabs(last_patm_x - total_p) > 0.001` (absolute, in atm) -/
+def pressureTestFails (lastPatm patm totalP : α) : Bool :=
+  decide (lit (1 / 1000) < absv (lastPatm - patm)) || decide (lit (1 / 1000) < absv (lastPatm - totalP))
+
+/-- the contribution of one `GAS_MOLES` row to `converge` (`true` = this row does not refuse convergence) -/
+def gasRowConverged (fixedVolume gasInFlag calcDeriv : Bool) (toler residual lastPatm patm totalP : α) : Bool :=
+  !(gasInFlag && decide (toler < absv residual)) &&
+  !(fixedVolume && pressureTestFails lastPatm patm totalP && !calcDeriv)
+
+/-- `check_residuals`, `GAS_MOLES` row: an ERROR message when the phase equation is in and `|residual| ≥ epsilon` -/
+def gasCheckResidualError (gasInFlag : Bool) (epsilon residual : α) : Bool :=
+  gasInFlag && (decide (epsilon ≤ residual) || decide (residual ≤ -epsilon))
+
+/-- one pass of `calc_gas_pressures` for a fixed-volume Peng–Robinson phase (no three-root search): damped molar volume,
+pressure from the equation of state, mole numbers `p_soln / P · V / V_m`; returns `(V_m, P, moles)` -/
+def fixedVStep (rt b a vmOld vol nPrev : α) (psoln : List α) : α × α × List α :=
+  let vm := dampVm vmOld vol nPrev
+  let p := pOfVm false rt b a vm
+  (vm, p, fixedVPRMoles psoln p vol vm)
+
 end PhreeqcVerif.GasPhase
